@@ -16,6 +16,10 @@ def _custom_tbl_dtype_compare(dtype1, dtype2):
     the other.
     """
 
+    if len(dtype1) != len(dtype2):
+        # different numbers of columns (zip below would silently ignore the rest)
+        return False
+
     for d1, d2 in zip(dtype1, dtype2):
         for k in set(list(d1.keys()) + list(d2.keys())):
             if k == "unit":
